@@ -205,9 +205,10 @@ def lift_calls(prog, r):
         return y
 
       def lift_top(x):
-        # do not lift out of combines / negations (their calls belong to the inner scope)
+        # do not lift out of combines / negations (their calls belong to the inner scope) nor out of a
+        # disjunction (a call joins only inside its own alternative)
         if isinstance(x, tuple):
-          if x and x[0] in ('combine', 'not'):
+          if x and x[0] in ('combine', 'not', 'or'):
             return x
           return fn(tuple(lift_top(z) for z in x))
         if isinstance(x, list):
